@@ -281,8 +281,41 @@ def is_zero_elem(node, v):
     if k == "float":
         return v == 0
     if k == "struct":
-        return not any(truthy(f["t"], v[fkey(i, f)], f) for i, f in enumerate(node["fields"]))
+        # falsy (no field is truthy) or equal to the default value: fixed-size array members of the all-zero
+        # element are truthy (b"\0\0", [0, 0]) but it still is the terminator that dumping appends
+        return (not any(truthy(f["t"], v[fkey(i, f)], f) for i, f in enumerate(node["fields"]))
+                or all(is_default(f["t"], v[fkey(i, f)], f) for i, f in enumerate(node["fields"])))
     raise ModelUnsupported(f"null-terminated array of {k}")
+
+
+def is_default(node, v, f=None):
+    """v is what default construction gives for this node (all zero; variable-length arrays empty)."""
+    k = node["k"]
+    if f is not None and f.get("bits"):
+        return v == 0
+    if k in ("int", "leb", "enum", "ptr", "float"):
+        return v == 0
+    if k == "char":
+        return v == b"\x00"
+    if k == "wchar":
+        return v == "\x00"
+    if k == "void":
+        return True
+    if k == "array":
+        elem, ln = node["elem"], node["len"]
+        if ln["f"] != "fixed":
+            return len(v) == 0
+        n = ln["n"]
+        if elem["k"] == "char":
+            return v == b"\x00" * n
+        if elem["k"] == "wchar":
+            return v == "\x00" * n
+        return len(v) == n and all(is_default(elem, x) for x in v)
+    if k == "struct":
+        if node["union"]:
+            raise ModelUnsupported("default test of a union")
+        return all(is_default(ff["t"], v[fkey(i, ff)], ff) for i, ff in enumerate(node["fields"]))
+    raise ValueError(k)
 
 
 def truthy(node, v, f=None):
@@ -917,7 +950,11 @@ def random_struct(node, rng, cfg, nonzero=False, maxlen=4):
         vals["$buf"] = bytes(buf).hex()
         return vals
     vals = {}
-    force = rng.randrange(len(fields)) if nonzero and fields else None
+    force = None
+    if nonzero and fields:
+        # a field that can be forced to a non-zero value (a scalar), so that the element is not a terminator
+        scal = [i for i, f in enumerate(fields) if f["t"]["k"] in ("int", "leb", "enum", "ptr", "float")]
+        force = rng.choice(scal) if scal else rng.randrange(len(fields))
     for i, f in enumerate(fields):
         vals[fkey(i, f)] = random_value(f["t"], rng, cfg, vals, f=f, nonzero=(force == i), maxlen=maxlen)
         if force == i and f.get("bits") and vals[fkey(i, f)] == 0:
